@@ -16,10 +16,10 @@ pub fn def() -> CheckDef {
         id: "C10",
         title: "Store contract: faithful records and one query semantics on every backend",
         case,
-        rule: "case = one collection (of the six) x one backend (in-memory, SQLite) x a seeded history of 12..30 operations: create (all fields distinct and adversarial: unicode, quotes, empty strings, NULLs, large and negative numbers), find / exists (present and absent ids), update (every field replaced), delete, query (1..2 AND/OR groups of EQ/NE/LT/LE/GT/GE expressions incl. sub-conditions that match nothing and NULL tests, numeric and text order keys asc/desc, offset/limit windows), and for SQLite close+reopen of the database file between operations (restart of the engine on the same file). Every answer is compared with RefCollection (a BTreeMap with a direct evaluator). non-trivial = the history contains a query with a filter and a record was updated or deleted before it; distinct = distinct history hashes",
+        rule: "case = one collection (of the six) x one backend (in-memory, SQLite) x a seeded history of 12..30 operations: create (all fields distinct and adversarial: unicode, quotes, empty strings, NULLs, large and negative numbers), find / exists (present and absent ids), update (every field replaced), delete, a second create of an existing id, update / delete of an id that was never created or is already deleted (reference: a keyed collection - refused resp. `false`, nothing created or changed), query (1..2 AND/OR groups of EQ/NE/LT/LE/GT/GE expressions incl. sub-conditions that match nothing and NULL tests, numeric and text order keys asc/desc, offset/limit windows), and for SQLite close+reopen of the database file between operations (restart of the engine on the same file). Every answer is compared with RefCollection (a BTreeMap with a direct evaluator). non-trivial = the history contains a query with a filter and a record was updated or deleted before it; distinct = distinct history hashes",
         level: "exploration",
-        assumptions: &["operations whose meaning the statement leaves open are not generated: create with an existing id, update/delete of an absent id, range operators on text, paging without a total order", "text order is byte order of the UTF-8 string", "no storage errors are injected (only close/reopen)"],
-        probes: &["probe.sqlite", "probe.mem", "probe.reopen", "probe.query_or", "probe.query_empty_subcondition", "probe.query_null", "probe.order_numeric", "probe.order_text", "probe.paged", "probe.update", "probe.delete"],
+        assumptions: &["operations whose meaning the statement leaves open are not generated: range operators on text, paging without a total order", "text order is byte order of the UTF-8 string", "no storage errors are injected (only close/reopen)"],
+        probes: &["probe.sqlite", "probe.mem", "probe.reopen", "probe.query_or", "probe.query_empty_subcondition", "probe.query_null", "probe.order_numeric", "probe.order_text", "probe.paged", "probe.update", "probe.delete", "probe.duplicate_create", "probe.update_absent", "probe.delete_absent"],
         quick_cases: 6000,
         no_shrink: &["models", "starts", "engine", "faults"],
     }
@@ -271,10 +271,82 @@ pub fn case(ctx: &mut CaseCtx) -> CaseOut {
         let nops = 12 + rng.below(19);
         let fields = schema(&colname);
         let mut next_id = 0u64;
+        let mut deleted: Vec<String> = vec![];
+        // a second stream for the operations on absent / duplicate ids, so that the histories drawn from the
+        // first stream (and the witnesses recorded with them) stay what they were
+        let mut rng2 = Rng::new(vsim::rng::mix(&[seed, 0xab5e]));
+        let mut uniq2 = 1u64 << 40;
         let viol = |kind: &str, op: &str, field: &str, detail: String| Violation::new("C10", kind, json!({"collection": colname, "backend": backend, "op": op, "field": field}), detail);
-        for step in 0..nops {
+        'steps: for step in 0..nops {
             let cols = w.backing.clone().unwrap();
             let ops = ops_of(&cols, &colname);
+            if !db.is_empty() && rng2.below(100) < 9 {
+                // operations on ids that are not (or no longer, or already) there: "the two backends return the
+                // same answers for any sequence of operations".  Reference = a keyed collection: a second create
+                // of an id is refused and changes nothing, update/delete of an absent id answer `false` and
+                // create nothing
+                let gone: Vec<String> = deleted.iter().filter(|d| !db.contains_key(*d)).cloned().collect();
+                let absent = if !gone.is_empty() && rng2.below(2) == 0 { gone[rng2.below(gone.len() as u64) as usize].clone() } else if colname == "tasks" { format!("zp9:t9{}", rng2.below(50)) } else { format!("z9{:02}", rng2.below(50)) };
+                mutated = true;
+                match rng2.below(3) {
+                    0 => {
+                        let id = db.keys().nth(rng2.below(db.len() as u64) as usize).cloned().unwrap();
+                        let mut r = record(&mut rng2, &colname, &id, &mut uniq2);
+                        if colname == "tasks" {
+                            let parts: Vec<&str> = id.split(':').collect();
+                            r["pid"] = json!(parts[0]);
+                            r["tid"] = json!(parts[1]);
+                        }
+                        log.push(format!("create-again {}", r));
+                        *probes.entry("probe.duplicate_create".into()).or_default() += 1;
+                        let res = (ops.create)(&r);
+                        if res.is_ok() {
+                            violations.push(viol("duplicate_create_accepted", "create", "", format!("step {}: create of the existing id {} answered {:?} (a keyed collection refuses it; the SQLite backend does)", step, id, res)));
+                            break 'steps;
+                        }
+                        match (ops.find)(&id) {
+                            Ok(got) => {
+                                if let Some(f) = first_diff(&db[&id], &got) {
+                                    violations.push(viol("record_not_faithful", "refused create+find", &f, format!("step {}: a refused create changed {}: {} (field {})", step, id, got, f)));
+                                    break 'steps;
+                                }
+                            }
+                            Err(e) => {
+                                violations.push(viol("find_failed", "refused create+find", "", format!("step {}: find after a refused create failed: {}", step, e)));
+                                break 'steps;
+                            }
+                        }
+                    }
+                    1 => {
+                        let mut r = record(&mut rng2, &colname, &absent, &mut uniq2);
+                        if colname == "tasks" {
+                            let parts: Vec<&str> = absent.split(':').collect();
+                            r["pid"] = json!(parts[0]);
+                            r["tid"] = json!(parts[1]);
+                        }
+                        log.push(format!("update-absent {}", r));
+                        *probes.entry("probe.update_absent".into()).or_default() += 1;
+                        let res = (ops.update)(&r);
+                        if (ops.find)(&absent).is_ok() || (ops.exists)(&absent) != Ok(false) {
+                            violations.push(viol("update_created_record", "update", "", format!("step {}: update of the absent id {} created a record", step, absent)));
+                            break 'steps;
+                        }
+                        if res != Ok(false) {
+                            violations.push(viol("absent_id_answer", "update", "", format!("step {}: update of the absent id {} answered {:?} (nothing was updated: false)", step, absent, res)));
+                            break 'steps;
+                        }
+                    }
+                    _ => {
+                        log.push(format!("delete-absent {}", absent));
+                        *probes.entry("probe.delete_absent".into()).or_default() += 1;
+                        let res = (ops.delete)(&absent);
+                        if res != Ok(false) {
+                            violations.push(viol("absent_id_answer", "delete", "", format!("step {}: delete of the absent id {} answered {:?} (nothing was deleted: false)", step, absent, res)));
+                            break 'steps;
+                        }
+                    }
+                }
+            }
             let choice = rng.below(100);
             if sqlite && choice < 7 {
                 // close and reopen the database file (a new engine on the same file)
@@ -359,9 +431,16 @@ pub fn case(ctx: &mut CaseCtx) -> CaseOut {
                 log.push(format!("update {}", r));
                 *probes.entry("probe.update".into()).or_default() += 1;
                 mutated = true;
-                if let Err(e) = (ops.update)(&r) {
-                    violations.push(viol("update_failed", "update", "", format!("step {}: update failed: {}", step, e)));
-                    break;
+                match (ops.update)(&r) {
+                    Err(e) => {
+                        violations.push(viol("update_failed", "update", "", format!("step {}: update failed: {}", step, e)));
+                        break;
+                    }
+                    Ok(false) => {
+                        violations.push(viol("present_id_answer", "update", "", format!("step {}: update of the present id {} answered false", step, id)));
+                        break;
+                    }
+                    Ok(true) => {}
                 }
                 db.insert(id.clone(), r.clone());
                 match (ops.find)(&id) {
@@ -381,11 +460,19 @@ pub fn case(ctx: &mut CaseCtx) -> CaseOut {
                 log.push(format!("delete {}", id));
                 *probes.entry("probe.delete".into()).or_default() += 1;
                 mutated = true;
-                if let Err(e) = (ops.delete)(&id) {
-                    violations.push(viol("delete_failed", "delete", "", format!("step {}: delete failed: {}", step, e)));
-                    break;
+                match (ops.delete)(&id) {
+                    Err(e) => {
+                        violations.push(viol("delete_failed", "delete", "", format!("step {}: delete failed: {}", step, e)));
+                        break;
+                    }
+                    Ok(false) => {
+                        violations.push(viol("present_id_answer", "delete", "", format!("step {}: delete of the present id {} answered false", step, id)));
+                        break;
+                    }
+                    Ok(true) => {}
                 }
                 db.remove(&id);
+                deleted.push(id.clone());
                 if (ops.find)(&id).is_ok() || (ops.exists)(&id) != Ok(false) {
                     violations.push(viol("deleted_record_still_there", "delete", "", format!("step {}: {} is still found after delete", step, id)));
                     break;
